@@ -2,3 +2,5 @@
 # runs the repository's own suite with the guard off; expects 40 passed / 1 failed (the baseline's always-failing test)
 cd /repo && env -u AMR_KITCHEN_VERIF /venv/bin/python -m pytest -q -p no:cacheprovider --timeout=900 --continue-on-collection-errors 2>&1 | tail -4
 git -C /repo status --short | grep -v plt_tmp
+# the always-failing test leaves its scratch output behind: never let it reach a commit of /repo
+rm -rf /repo/test/plt_tmp
